@@ -127,12 +127,16 @@ class Wavefunction:
 
         try:
             self._check_normalization(self._amplitude_vector)
-        except ValueError:
+        except Exception as error:
+            # whatever made the check fail (e.g. sympy refusing to compare a NaN),
+            # an assignment that raises must leave the amplitudes as they were
             if isinstance(self._amplitude_vector, np.ndarray):
                 self._amplitude_vector[...] = old_amplitudes
             else:
                 self._amplitude_vector[:, :] = old_amplitudes
 
+            if not isinstance(error, ValueError):
+                raise
             raise ValueError("This assignment violates probability unity.")
 
     def __str__(self) -> str:
